@@ -12,6 +12,10 @@ CLAIMS = {
     text="LiquidSyntax models the parser protocol as a pushdown machine over the element stream of the lax grammar (open blocks with their modes, raw and comment scanning, else/elsif/when contexts, EOI inside a block = unclosed) ending in accept / reject / unspecified; TLC enumerates every element sequence up to the bound, checks that the machine is never stuck (no expect can fire) and that accept implies every block closed, and every sequence is parsed by the real parser under three configurations and compared with the verdict (a panic, abort or hang is a disagreement of the record in flight; rejections must carry a message). Random longer token soups, lexical sequences inside host tags, nesting towers to depth 32 and character-level mutations of valid templates are parsed and their Call/Return trace validated with TLC (Trace_Calls): a call without a Return, or a rejection without a message, has no explanation.",
     note="bounded: element sequences <= 4 structural / <= 2 full alphabet (quick), <= 5 / <= 3 (thorough); the per-tag argument grammar is covered for totality, not verdict; four repaired defects (EOI inside nested block in a comment, 20-digit integer literal, error-path re-parse).",
     tech=TECH_AB, ref="DESIGN.md 7 C01"),
+ "C02": dict(
+    text="LiquidFilterSig is the signature table of every registered filter; TLC spans the space filter x input x argument tuple over a type-confused value pool and states the outcome class (arity outside the signature: rejected; inside: returns a value or an error); every case is executed on the real filters through a template in a build with overflow checks, requiring a return, valid UTF-8 and the stated class; a corpus of tags and blocks with edge arguments is rendered the same way. The LiquidInterp machine of C04 - C10 has no third outcome besides Ok and Err, and every program of those corpora is rendered as well; the functional filter specifications of C13 - C17 decide values where they exist.",
+    note="bounded: arity <= 2, 45-value pool (arity-2 arguments from 12 values in the quick tier); hang detection is a watchdog; memory safety of from_utf8_unchecked is not modelled, the bytes the sink receives are validated; two repaired defects (cycle without values, tablerow cols:0).",
+    tech=TECH_A, ref="DESIGN.md 7 C02"),
  "C03": dict(
     text="LiquidText defines templates as item sequences with independent trim flags on every delimiter side, their source text and, declaratively, their output (a text segment loses exactly its maximal whitespace run towards a trimming delimiter; raw bodies verbatim; comments nothing and no effect); TLC enumerates the bounded template space and checks identity on plain text, that only whitespace is ever removed and that the grammar-shaped whitespace class refines the property's; every template is rendered by the real parser (with a probe that exposes side effects of comments) and compared byte for byte.",
     note="bounded: whitespace runs <= 2 (quick) / 3 (thorough), inner padding 0..1 / 0..3, one or two markups per template; two defects found by this check were repaired (tab not whitespace; raw body ending in a trimming pseudo-tag).",
